@@ -73,6 +73,15 @@ func wrapGraphNodeError(nodeKey string, err error) error {
 			origError: err,
 		}
 	}
+	if direct, isDirect := err.(*internalError); !isDirect || direct != ie {
+		// err only wraps an internal error: keep err itself in the chain
+		return &internalError{
+			typ:               internalErrorTypeNodeRun,
+			streamWrapperPath: ie.streamWrapperPath,
+			nodePath:          NodePath{path: append([]string{nodeKey}, ie.nodePath.path...)},
+			origError:         err,
+		}
+	}
 	ie.nodePath.path = append([]string{nodeKey}, ie.nodePath.path...)
 	return ie
 }
@@ -95,6 +104,15 @@ func wrapStreamWrapperError(streamWrapperType defaultImplAction, err error) erro
 		return &internalError{
 			typ:               internalErrorTypeNodeRun,
 			streamWrapperPath: []defaultImplAction{streamWrapperType},
+			origError:         err,
+		}
+	}
+	if direct, isDirect := err.(*internalError); !isDirect || direct != ie {
+		// err only wraps an internal error: keep err itself in the chain
+		return &internalError{
+			typ:               internalErrorTypeNodeRun,
+			streamWrapperPath: append([]defaultImplAction{streamWrapperType}, ie.streamWrapperPath...),
+			nodePath:          ie.nodePath,
 			origError:         err,
 		}
 	}
